@@ -224,6 +224,7 @@ def run(P, R, tier):
     mw = MW.MustWrite(P, extra_cover_methods=("SetAll",))
     cg = callgraph(P)
 
+    initorder_rule(P, R, ("phrq_io", "ioInstance"))
     # ------------------------------------------------------------------ C07.order
     R.rule("C07.order", "reload sequence: UnLoadDatabase before read_database; clean_up < init < do_initialize; test_db on the success path", minimum=6)
     un = P.one("IPhreeqc::UnLoadDatabase")
@@ -438,3 +439,51 @@ def mirror_rule(P, R, RULE, wt, un, only=None, minimum=4):
                     R.violation(RULE, inst, "listed save/restore exception no longer restores the saved value", file=f["file"], line=line, function=f["q"])
             else:
                 R.violation(RULE, inst, "%s is written without updating its PHRQ_io mirror through %s" % (opt, setter), file=f["file"], line=line, function=f["q"])
+
+
+def initorder_rule(P, R, survivors):
+    """Phreeqc::init() must not read a member before it has assigned it: such a read sees the value left by the previous
+    database / run (e.g. a threshold derived from a KNOBS value that is reset further down) and the reloaded instance differs
+    from a fresh one, whose constructor ran init() on default-initialised members."""
+    R.rule("C07.initorder", "Phreeqc::init assigns every member before it reads it (no value derived from pre-load state)", minimum=1)
+    f = P.one("Phreeqc::init")
+
+    def members(n):
+        return [y[2] for y in T.walk(n) if y[0] == "Member" and T.is_node(y[3]) and T.strip_casts(y[3])[0] == "This"]
+    written = set()
+    nreads = 0
+    bad = []
+    for st in f["body"][2]:
+        if not T.is_node(st):
+            continue
+        tg = set()
+        for t, how, l, node in T.writes(st):
+            r, steps = T.access_path(t)
+            if r == ("this",) and steps:
+                tg.add(steps[0][1])
+        reads = set()
+        for x in T.walk(st):
+            if x[0] == "Bin" and x[2] in T.ASSIGN_OPS:
+                reads |= set(members(x[4]))
+                if x[2] != "=":
+                    reads |= set(members(x[3]))
+            elif x[0] == "Call":
+                for a in x[4] or []:
+                    reads |= set(members(a))
+        for r in sorted(reads):
+            nreads += 1
+            if r not in written and r not in tg and r.split("::")[-1] not in survivors:
+                bad.append((st[1], r))
+        written |= tg
+        for c in T.calls(st):
+            if T.is_node(c[3]):
+                for m in members(c[3]):
+                    written.add(m)
+    if nreads < 3:
+        R.anchor_missing("C07.initorder", "Phreeqc::init: only %d member reads found" % nreads)
+        return
+    if not bad:
+        R.ok("C07.initorder", "Phreeqc::init", "%d member reads, each after the member's own assignment" % nreads)
+    for line, m in bad:
+        R.violation("C07.initorder", "Phreeqc::init:%s" % m.split("::")[-1], "init() reads `%s` at line %d before assigning it: the value comes from before the load, so what is derived from it "
+                    "differs between a reloaded and a fresh instance" % (m.split("::")[-1], line), file=f["file"], line=line, function=f["q"])
